@@ -301,7 +301,10 @@ CLAIM = {
             '(C08_pinned_group_refuted, C08_free_value_routing) and were repaired. For abbreviations that resolve '
             'differently per member the equality is false of the faithful model (C08_group_abbrev_refuted, known '
             'finding group-abbrev-per-member) - exactly the spellings the hypothesis of the theorem excludes. Tie: '
-            'correspondence through the real Groups singleton with the single-handler values as oracle.',
+            'correspondence through the real Groups singleton with the single-handler values as oracle. Members that own '
+            'sub-group arguments: the same loop with another member step (ArgH/GroupsGen.v; '
+            'C08_generic_loop_is_eval_group, C08_members_with_subgroups_conservative), tied through the same harness; '
+            'the key of a sub-group argument that another member uses was accepted by the pinned tree - repaired.',
     'note': 'hypotheses of the main theorem: keyed uses (free values / positional arguments are covered by '
             'C08_group_line_is_fold_of_uses, the routing witnesses and the tie), handler constraints all_of / any_of / '
             'one_of (value constraints differ / disjoint address arguments by position: tie only), requires / '
